@@ -277,6 +277,8 @@ fn sc_tamper(plan: &Plan, lib: &dyn Lib, rec: &mut Rec, all_bits: bool) {
         rec.expect("C11", "ciphertext-layout", false, || "layout | own ciphertext does not have the documented layout u || len || v || w || scheme".into());
         return;
     };
+    // the recipient handles the honest ciphertext first, then the altered one(s), then the honest one again
+    sc_expect(rec, lib, g, &orig, &msg, &a.sk, &ct, "honest-before", scheme);
     if all_bits {
         for bit in 0..ct.len() * 8 {
             let mut t = ct.clone();
@@ -338,6 +340,7 @@ fn sc_tamper(plan: &Plan, lib: &dyn Lib, rec: &mut Rec, all_bits: bool) {
         }
         sc_expect(rec, lib, g, &orig, &msg, &a.sk, &r.parts[0], label, scheme);
     }
+    sc_expect(rec, lib, g, &orig, &msg, &a.sk, &ct, "honest-after", scheme);
     rec.sample(|| format!("perturbation={} scheme={} g={} len={}", label, scheme_name(scheme), g.name(), msg.len()));
     c.finish(rec);
 }
@@ -682,6 +685,8 @@ fn tl_tamper(plan: &Plan, lib: &dyn Lib, rec: &mut Rec, all_bits: bool) {
     for r in c.ship(0, 1, K_CT, 0, vec![f.build()]) {
         judge(rec, &r.parts[0], label);
     }
+    let after = rec.call(lib, g, Op::TlDecrypt, &[&ct, &sig]);
+    rec.expect("C13", "correct-signature-opens-exactly", after.opt_value() == Some(Some(msg.as_slice())), || format!("open-after-{} scheme={} g={} shares=false | the honest ciphertext no longer opens after an altered one was handled: {}", label, sch, g.name(), describe(&after)));
     rec.sample(|| format!("perturbation={} scheme={} g={} len={}", label, sch, g.name(), msg.len()));
     c.finish(rec);
 }
